@@ -2,8 +2,11 @@ package main
 
 import (
 	"fmt"
+	"os"
 	"go/ast"
 	"go/types"
+
+	"golang.org/x/tools/go/ssa"
 )
 
 // extMethod: a method of a dependency type assumed pure and functional on plain-value arguments
@@ -54,4 +57,26 @@ func (ctx *EvalCtx) extMethod(recv CV, name string, argExprs []ast.Expr) (CV, bo
 		}
 	}
 	return CV{}, false
+}
+
+var debugOn = os.Getenv("GOVC_DEBUG") != ""
+
+// paramCell: the local cell (Alloc) a parameter was spilled to because the function assigns to it or takes
+// its address (go/ssa emits "tN = local T (name); *tN = name" at entry), or nil.
+func (fr *Frame) paramCell(name string) *ssa.Alloc {
+	if len(fr.fn.Blocks) == 0 {
+		return nil
+	}
+	for _, in := range fr.fn.Blocks[0].Instrs {
+		st, ok := in.(*ssa.Store)
+		if !ok {
+			continue
+		}
+		p, isParam := st.Val.(*ssa.Parameter)
+		a, isAlloc := st.Addr.(*ssa.Alloc)
+		if isParam && isAlloc && p.Name() == name && a.Comment == name {
+			return a
+		}
+	}
+	return nil
 }
